@@ -173,8 +173,16 @@ var defined = map[string]error{
 type tcase struct {
 	M    string // method
 	Err  string // error name | "deadline" | "arbitrary"
-	Wrap bool
+	Wrap  bool
+	Shape string // plain | single (%w) | join (errors.Join) | two (second of two %w) | is (a type whose Is method names the deadline)
 }
+
+// isDeadline declares itself to be the deadline through an Is method, as the timeout errors of package net do; it wraps nothing
+type isDeadline struct{}
+
+func (isDeadline) Error() string        { return "dial tcp 10.1.2.3:7946: i/o timeout" }
+func (isDeadline) Timeout() bool        { return true }
+func (isDeadline) Is(target error) bool { return target == context.DeadlineExceeded }
 
 type obs struct {
 	Reached      bool   `json:"reached"`      // the stub method was invoked through the RPC path
@@ -310,7 +318,22 @@ func main() {
 		}
 		origin := base
 		if c.Wrap {
-			origin = fmt.Errorf(wrapTexts[r.Intn(len(wrapTexts))], base)
+			switch c.Shape {
+			case "", "single":
+				origin = fmt.Errorf(wrapTexts[r.Intn(len(wrapTexts))], base)
+			case "join":
+				if r.Intn(2) == 0 {
+					origin = errors.Join(errors.New("closing the batch failed"), base)
+				} else {
+					origin = fmt.Errorf("handling request: %w", errors.Join(base, errors.New("rollback failed too")))
+				}
+			case "two":
+				origin = fmt.Errorf("%w: %w", errors.New("transfer aborted"), base)
+			case "is":
+				origin = fmt.Errorf("reaching the successor: %w", isDeadline{})
+			default:
+				panic("shape " + c.Shape)
+			}
 		}
 		st.mu.Lock()
 		st.err = origin
